@@ -23,7 +23,29 @@ fn snapshot(ws: &Workspace) -> J {
 pub fn op_ws(state: &mut State, req: &J) -> J {
   let w = req.get("w").and_then(|x| x.as_str()).unwrap_or("");
   if w == "new" {
-    state.workspace = Some(Workspace::new(None));
+    // with "files": [[relative path, content]...] the workspace is created over a directory holding those files (it loads and deploys
+    // what it finds there); the directory lives under the system's temporary directory for the duration of the call
+    if let Some(files) = req.get("files").and_then(|x| x.as_array()) {
+      static COUNTER: std::sync::atomic::AtomicUsize = std::sync::atomic::AtomicUsize::new(0);
+      let dir = std::env::temp_dir().join(format!("vdrv-ws-{}-{}", std::process::id(), COUNTER.fetch_add(1, std::sync::atomic::Ordering::Relaxed)));
+      for f in files {
+        let rel = f.get(0).and_then(|x| x.as_str()).unwrap_or("x");
+        let content = f.get(1).and_then(|x| x.as_str()).unwrap_or("");
+        let path = dir.join(rel);
+        if let Some(parent) = path.parent() {
+          let _ = std::fs::create_dir_all(parent);
+        }
+        if std::fs::write(&path, content).is_err() {
+          let _ = std::fs::remove_dir_all(&dir);
+          return json!({"error": "cannot write the workspace directory"});
+        }
+      }
+      let _ = std::fs::create_dir_all(&dir);
+      state.workspace = Some(Workspace::new(Some(dir.clone())));
+      let _ = std::fs::remove_dir_all(&dir);
+    } else {
+      state.workspace = Some(Workspace::new(None));
+    }
     return json!({"ok": true, "snapshot": snapshot(state.workspace.as_ref().unwrap())});
   }
   let ws = match state.workspace.as_mut() {
